@@ -151,6 +151,19 @@ func (b *build) prepare() error {
 			seen[d] = true
 		}
 	}
+	// packages replaced as a whole (harnessSpec.replaceDirs): part of the overlay from the start
+	pre, err := b.replaceOverlay()
+	if err != nil {
+		return err
+	}
+	if len(pre) > 0 {
+		pb, _ := json.MarshalIndent(map[string]any{"Replace": pre}, "", " ")
+		prePath := filepath.Join(b.scratch, "overlay-pre.json")
+		if err := os.WriteFile(prePath, pb, 0o644); err != nil {
+			return err
+		}
+		args = append(args[:1:1], append([]string{"-overlay", prePath}, args[1:]...)...)
+	}
 	cmd := exec.Command(goBin, args...)
 	cmd.Dir = repo
 	cmd.Env = goEnv()
@@ -175,6 +188,9 @@ func (b *build) prepare() error {
 		pkgs[p.ImportPath] = &pp
 	}
 	overlay := map[string]string{}
+	for k, v := range pre {
+		overlay[k] = v
+	}
 	// 2. instrument
 	for _, p := range b.h.pkgs {
 		ip := "github.com/ollama/ollama/" + p.dir
@@ -268,6 +284,33 @@ func (b *build) prepare() error {
 		return err
 	}
 	return nil
+}
+
+// replaceOverlay builds the overlay entries of harnessSpec.replaceDirs: every regular file of
+// the repo directory is deleted, the .go files of the stand-in directory are added.
+func (b *build) replaceOverlay() (map[string]string, error) {
+	ov := map[string]string{}
+	for dst, src := range b.h.replaceDirs {
+		ents, err := os.ReadDir(filepath.Join(repo, dst))
+		if err != nil {
+			return nil, fmt.Errorf("replaceDirs: %v", err)
+		}
+		for _, e := range ents {
+			if !e.IsDir() {
+				ov[filepath.Join(repo, dst, e.Name())] = ""
+			}
+		}
+		ents, err = os.ReadDir(filepath.Join(verif, src))
+		if err != nil {
+			return nil, fmt.Errorf("replaceDirs: %v", err)
+		}
+		for _, e := range ents {
+			if !e.IsDir() && strings.HasSuffix(e.Name(), ".go") && !strings.HasSuffix(e.Name(), "_test.go") {
+				ov[filepath.Join(repo, dst, e.Name())] = filepath.Join(verif, src, e.Name())
+			}
+		}
+	}
+	return ov, nil
 }
 
 func (b *build) compile() error {
@@ -474,6 +517,19 @@ func check(prop, tierArg string) int {
 	// and an API stage); they run one after the other and are aggregated
 	stages := []stageSpec{{harness: spec.harness, quickS: spec.quickS, thoroughS: spec.thoroughS}}
 	stages = append(stages, spec.extra...)
+	if only := os.Getenv("VERIF_STAGE"); only != "" {
+		// development aid (never set by registered checks): run the stage of one harness only
+		var sel []stageSpec
+		for _, st := range stages {
+			if st.harness == only {
+				sel = append(sel, st)
+			}
+		}
+		if len(sel) == 0 {
+			fatal(2, "VERIF_STAGE=%s: property %s has no such stage", only, prop)
+		}
+		stages = sel
+	}
 	var results []workerRun
 	var buildS float64
 	var instrLog []string
